@@ -1233,6 +1233,11 @@ class ABCPropertyGraph(ABCPropertyGraphConstants):
         assert lsliver.node_id is not None
         assert interfaces is not None
 
+        # all interfaces must be in the graph before anything is added
+        interfaces = list(interfaces)
+        for i in interfaces:
+            self.get_node_properties(node_id=i)
+
         props = self.link_sliver_to_graph_properties_dict(lsliver)
         self.add_node(node_id=lsliver.node_id, label=ABCPropertyGraph.CLASS_Link, props=props)
         # add edge links to specified interfaces
